@@ -40,11 +40,24 @@ def run(ctx, args):
     ctx.model_check("MC_Sticky", "MC_StickyReject.cfg", expect_violation="StickyStep")      # releasing the pin when an INVITE of the established dialog is rejected violates it
     ctx.model_check("MC_Sticky", "MC_StickyReach.cfg", expect_violation="Reach_PinnedAfterRotation")
     ctx.model_check("MC_Sticky", "MC_StickyReachLong.cfg", expect_violation="Reach_LongSurvives")
-    ctx.model_check("MC_Sticky", "MC_StickyReachTx.cfg", expect_violation="Reach_TxAttributed")   # a dialog pinned through the transaction binding is reachable
+    ctx.model_check("MC_Sticky", "MC_StickyReachTx.cfg", expect_violation="Reach_TxAttributed")
+    ctx.model_check("MC_Sticky", "MC_StickyReachStray.cfg", expect_violation="Reach_StrayUnpins")   # documented observation: an answer from another address releases the pin   # a dialog pinned through the transaction binding is reachable
     beh = os.path.join(ctx.scratch, "sticky_behaviours.ndjson")
     ctx.emit("MC_Sticky", "MC_StickySim.cfg", beh, simulate="num=%d" % (15 if q else 150), depth=13, workers=1)
     nbeh = sum(1 for _ in open(beh))
     fails = sticky(ctx, "C04", "c04", {"VERIF_IN": beh, "VERIF_MAXBEH": 400 if q else 5000, "VERIF_NRAND": 30 if q else 300}, "sticky_trace.ndjson")
+    # the same through the real UDP listener of a service started from YAML (receive / parser goroutines in front of the loop)
+    wtrace = os.path.join(ctx.scratch, "sticky_wire_trace.ndjson")
+    rc, out = ctx.run_driver("TestVfStickyWire", env={"VERIF_TRACE": wtrace, "VERIF_NDIALOG": 12 if q else 100}, timeout=1500)
+    m = re.search(r"VF cases=(\d+) events=(\d+)", out)
+    if not m:
+        raise Infra("sticky wire driver printed no summary:\n" + out[-2000:])
+    ctx.traces += int(m.group(1))
+    ctx.extra["real_listener_dialogs"] = int(m.group(1))
+    wf, r = ctx.validate("Trace_Sticky", "Trace_Sticky_C04.cfg", wtrace)
+    for f in wf:
+        f["trace"] = wtrace
+    fails += wf
     ctx.evaluations = ctx.traces
     ctx.distinct = ctx.traces
     ctx.rule = ("histories of {initial INVITE, tagged 1xx/2xx from the chosen backend, in-dialog requests of 10 methods in both directions, unrelated traffic, "
